@@ -67,6 +67,16 @@ impl Wake for Flag {
 pub enum LKind {
     Tcp,
     Uds,
+    /// the second address of the same `bind()` call as the listener before it (one `bind` with
+    /// two addresses: two sockets, one service)
+    TcpBindSecond,
+}
+
+impl Config {
+    /// index of the service a connection on harness listener `l` belongs to
+    pub fn svc_of(&self, l: usize) -> usize {
+        self.listeners[..=l].iter().filter(|k| **k != LKind::TcpBindSecond).count() - 1
+    }
 }
 
 #[derive(Clone, Debug)]
@@ -739,9 +749,16 @@ impl World {
         for e in &evs[..n as usize] {
             let data = e.u64;
             out.push(data as usize);
-            if let Some((fd, mask)) = regs.iter().find(|(_, _, d)| *d == data).map(|(fd, m, _)| (*fd, *m)) {
-                let mut ev = libc::epoll_event { events: mask, u64: data };
-                unsafe { libc::epoll_ctl(epfd, libc::EPOLL_CTL_MOD, fd, &mut ev) };
+            // (several registrations may carry the same data - a defect, but one the explorer must
+            // survive: every readable one of them is re-armed)
+            let same: Vec<(RawFd, u32)> = regs.iter().filter(|(_, _, d)| *d == data).map(|(fd, m, _)| (*fd, *m)).collect();
+            if !same.is_empty() {
+                for (fd, mask) in &same {
+                    if same.len() == 1 || fd_readable(*fd, 0) {
+                        let mut ev = libc::epoll_event { events: *mask, u64: data };
+                        unsafe { libc::epoll_ctl(epfd, libc::EPOLL_CTL_MOD, *fd, &mut ev) };
+                    }
+                }
             } else {
                 self.rec(Rec::Machinery(format!("pending epoll event with data {data:#x} has no registration in fdinfo")));
             }
@@ -1133,7 +1150,18 @@ impl Sys {
 
         let mut builder = Server::build().workers(cfg.workers).max_concurrent_connections(cfg.limit).shutdown_timeout(cfg.shutdown_timeout_s).disable_signals();
         for (i, kind) in cfg.listeners.iter().enumerate() {
+            let i_svc = cfg.svc_of(i);
             match kind {
+                LKind::TcpBindSecond => {} // bound together with the listener before it
+                LKind::Tcp if cfg.listeners.get(i + 1) == Some(&LKind::TcpBindSecond) => {
+                    // one bind() call with two addresses (ports picked by binding and releasing them)
+                    let ip = format!("127.89.{}.{}:0", std::process::id() % 250 + 1, exec % 250 + 1);
+                    let pick = || std::net::TcpListener::bind(&ip).expect("bind").local_addr().unwrap();
+                    let (a1, a2) = (pick(), pick());
+                    w.laddrs.borrow_mut().push(LAddr::Tcp(a1));
+                    w.laddrs.borrow_mut().push(LAddr::Tcp(a2));
+                    builder = builder.bind(format!("svc{i_svc}"), &[a1, a2][..], move || fn_factory(move || create_service(i_svc))).expect("bind two addresses");
+                }
                 LKind::Tcp => {
                     // a loopback address of our own: other processes on this machine that connect to
                     // 127.0.0.1:<recycled ephemeral port> cannot reach this listener by accident
@@ -1141,7 +1169,7 @@ impl Sys {
                     let lst = std::net::TcpListener::bind(&ip).or_else(|_| std::net::TcpListener::bind("127.0.0.1:0")).expect("bind");
                     w.laddrs.borrow_mut().push(LAddr::Tcp(lst.local_addr().unwrap()));
                     builder = builder
-                        .listen(format!("svc{i}"), lst, move || fn_factory(move || create_service(i)))
+                        .listen(format!("svc{i_svc}"), lst, move || fn_factory(move || create_service(i_svc)))
                         .expect("listen");
                 }
                 LKind::Uds => {
@@ -1151,7 +1179,7 @@ impl Sys {
                     sys.uds_paths.push(path.clone());
                     w.laddrs.borrow_mut().push(LAddr::Uds(path));
                     builder = builder
-                        .listen_uds(format!("svc{i}"), lst, move || fn_factory(move || create_service(i)))
+                        .listen_uds(format!("svc{i_svc}"), lst, move || fn_factory(move || create_service(i_svc)))
                         .expect("listen_uds");
                 }
             }
